@@ -62,7 +62,7 @@ URL = (
     r"(?:[a-z" + UNICODE_HOST_CHARS + r"]{2,}\.?)"
     r")"
     # port number (optional)
-    r"(?::\d{2,5})?"
+    r"(?::\d{1,5})?"
     # resource path (optional)
     # r"(?:[/?#]\S*)?"
 )
